@@ -17,7 +17,10 @@ import (
 // service (StopAndWait / Start / ReconfigureProcessor outcomes are inputs; a successful stop
 // leaves the pipeline user-stopped, a successful start running) on the fault-injecting DB.
 //
-//	live <cfg> <allow> <stale> <stopOk> <startOk> <reconf|-> [!k]   plus imp / ss / st as in `import`
+//	live <cfg> <allow> <stale> <stopOk> <startOk> <reconf|-> [flip] [!k]   plus imp / ss / st as in `import`
+//
+// `flip`: an external Start sets the pipeline Running between ApplyPlanLive's first status read
+// and its re-read (the TOCTOU window the re-read closes; the authorisation gate must see it).
 //
 // Output per live step: <class>#<event log: stop,start,reconf<id>,commit>#<Export after>#<observe>.
 func init() {
@@ -25,7 +28,7 @@ func init() {
 }
 
 func ntLive(line, res string) bool {
-	return strings.Contains(res, "#stop") || strings.Contains(res, "reconf") || strings.Contains(res, "stale#") || strings.Contains(res, "unauth#")
+	return strings.Contains(line, " flip") || strings.Contains(res, "#stop") || strings.Contains(res, "reconf") || strings.Contains(res, "stale#") || strings.Contains(res, "unauth#")
 }
 
 var errFakeLifecycle = errors.New("verif: scripted lifecycle failure")
@@ -109,6 +112,11 @@ func runLive(line string) string {
 		}
 		switch f[0] {
 		case "live":
+			flip := false
+			if len(f) >= 8 && f[7] == "flip" {
+				flip = true
+				f = append(f[:7:7], f[8:]...)
+			}
 			if len(f) != 7 && len(f) != 8 {
 				return "bad-op"
 			}
@@ -158,6 +166,8 @@ func runLive(line string) string {
 				if perr == nil {
 					w.db.arm(k)
 				}
+				w.plw.arm(flip)
+				defer w.plw.disarm()
 				_, err := w.prov.ApplyPlanLive(ctx, cfg, hash, f[2] == "1")
 				return liveErrClass(err)
 			}()
@@ -268,6 +278,17 @@ func genLive(r *gen.Rand, o *gen.Out, _ int) string {
 			o.Count("change=none")
 		}
 		allow, stale := r.Chance(3, 4), r.Chance(1, 8)
+		flip := r.Chance(1, 5)
+		if flip {
+			// the window matters when the pipeline is stopped at the first read: stop it first (mostly),
+			// and mostly without the operator flag
+			if r.Chance(4, 5) {
+				ops = append(ops, fmt.Sprintf("st 1 %d", []int{3, 3, 2}[r.Intn(3)]))
+			}
+			allow = r.Chance(1, 4)
+			stale = r.Chance(1, 12)
+			o.Count("flip")
+		}
 		stop, start := r.Chance(4, 5), r.Chance(4, 5)
 		rc := "-"
 		if r.Chance(1, 2) {
@@ -284,12 +305,15 @@ func genLive(r *gen.Rand, o *gen.Out, _ int) string {
 			return 0
 		}
 		op := fmt.Sprintf("live %s %d %d %d %d %s", n.String(), b(allow), b(stale), b(stop), b(start), rc)
+		if flip {
+			op += " flip"
+		}
 		if r.Chance(1, 5) {
 			op += fmt.Sprintf(" !%d", r.Range(1, 12))
 			o.Count("fail")
 		}
 		ops = append(ops, op)
-		if !stale && stop && start {
+		if !stale && stop && start && !(flip && !allow) {
 			c = n
 		}
 	}
